@@ -16,10 +16,10 @@ BOUNDS = {
               "parts": "field, file, field+file, file+field with a repeated name", "boundaries": ["b", "xyz"]},
     "thorough": {"payload": "<= 4 bytes", "names": "<= 3 characters"},
 }
-STUBS = ["none"]
+STUBS = ["urllib.parse.quote / unquote on solver text: per-byte / scan models (the real functions are table lookups that fork once per table entry); validated natively on every path. urllib.parse.urlencode, quote_plus and parse_qsl are interpreted from the stdlib source"]
 ASSUMPTIONS = ["names exclude the double quote, backslash, CR, LF and '%22' (the header syntax cannot carry them), as the property states",
                "payloads do not contain '--' + boundary (no encoder can carry a delimiter look-alike)"]
-OUTSIDE = ["urlencoded forms and query strings (urllib.parse)", "EnvironBuilder / test client plumbing (temp files, random boundary)", "code points above U+07FF in names",
+OUTSIDE = ["urlencoded keys/values longer than 2 (3) code points or above U+07FF; FormDataParser's stream reading of urlencoded bodies", "EnvironBuilder / test client plumbing (temp files, random boundary)", "code points above U+07FF in names",
            "field values longer than 2 (3) code points through MultiPartParser"]
 
 SHAPES = {"field": ["field"], "file": ["file"], "field+file": ["field", "file"], "file+field-same-name": ["file", "field"], "two-fields": ["field", "field"]}
@@ -75,7 +75,7 @@ def body_roundtrip(I, X, shape="field", n=2, nn=1, boundary="b", chunk=0):
     return ok, {"wire": wire, "parts": parts, "err": err}
 
 
-def body_urlencoded(I, X, nk=1, nv=1, repeated=False):
+def body_urlencoded(I, X, nk=1, nv=1, repeated=False, via="parse_qsl"):
     """urls._urlencode -> urllib.parse.parse_qsl (as Request.form / Request.args use it):
     keys and values come back unchanged, in order, incl. repeated keys and empty values"""
     from urllib.parse import parse_qsl
@@ -89,7 +89,26 @@ def body_urlencoded(I, X, nk=1, nv=1, repeated=False):
         X.assume(pnone_in(t, [(0xD800, 0xDFFF)]))
     items = [(k, v), ("z", "")] + ([(k, "2")] if repeated else [])
     qs = I.call(_urlencode, (items,))
-    back = I.call(parse_qsl, (qs,), {"keep_blank_values": True, "errors": "werkzeug.url_quote"})
+    if via == "args":
+        # the query string as a server hands it over (ASCII bytes), read through Request.args
+        from werkzeug.sansio.request import Request
+
+        r = Request("GET", "http", ("srv", 80), "", "/", qs.encode("ascii"), {}, "1.2.3.4")
+        md = I.getattr(r, "args")
+        back = [tuple(kv) for kv in I.call(md.items, (), {"multi": True})]
+    else:
+        back = I.call(parse_qsl, (qs,), {"keep_blank_values": True, "errors": "werkzeug.url_quote"})
+    if via == "args":
+        # a MultiDict keeps the values of one key together (in order), keys in first-seen order
+        groups = []
+        for key, val in items:
+            for g in groups:
+                if bool(peq(g[0], key)):
+                    g[1].append(val)
+                    break
+            else:
+                groups.append((key, [val]))
+        items = [(key, val) for key, vals in groups for val in vals]
     ok = len(back) == len(items)
     if ok:
         for (a, b), (c, d) in zip(back, items):
@@ -105,6 +124,18 @@ def make_stubs():
     import urllib.parse
 
     st.pop(urllib.parse.parse_qsl, None)  # here parse_qsl itself is interpreted from the stdlib source
+
+    def unquote_stub(I, string, encoding="utf-8", errors="replace"):
+        """urllib.parse.unquote looks every escape up in a 484-entry table (one fork per entry
+        on solver text): replaced by a scan model, validated natively on every path"""
+        from harness.c03 import unquote_model
+        from symex.seq import SSeq
+
+        if isinstance(string, SSeq) and string.kind == "str":
+            return unquote_model(string, encoding, errors)
+        return urllib.parse.unquote(string, encoding, errors)
+
+    st[urllib.parse.unquote] = unquote_stub
     return st
 
 
@@ -133,8 +164,13 @@ def obligations(tier, seed):
             out.append({"name": f"field_text[n={n},maxcp={maxcp:#x},buffer_size={bs}]", "body": "body_field_text",
                         "params": {"n": n, "buffer_size": bs, "maxcp": maxcp},
                         "opts": {"budget_s": 900, "ctx": {"max_cp": maxcp, "loop_bound": 1000}}})
-    # (urlencoded forms: body_urlencoded interprets urllib.parse.parse_qsl from its source, but its
-    # path count is out of reach even for one character -- not registered, outside the claim)
+    # urlencoded forms: urls._urlencode -> urllib.parse.parse_qsl (interpreted from its source,
+    # with quote / unquote replaced by scan models)
+    for nk, nv in ([(1, 0), (1, 1), (2, 1), (1, 2)] if quick else [(1, 0), (1, 1), (2, 1), (1, 2), (2, 2), (3, 1), (1, 3)]):
+        for rep, via in ((False, "parse_qsl"), (True, "parse_qsl"), (True, "args")):
+            out.append({"name": f"urlencoded[k={nk},v={nv},repeated={rep},via={via}]", "body": "body_urlencoded",
+                        "params": {"nk": nk, "nv": nv, "repeated": rep, "via": via},
+                        "opts": {"budget_s": 900, "ctx": {"max_cp": 0x7FF}}, "witness": nk == 1 and nv == 1 and not rep})
     # chunked decoding of the encoder's output with a realistic boundary
     for shape in ("field", "file"):
         for chunk in ([9, 16, 30] if quick else [5, 9, 12, 16, 23, 30, 41]):
